@@ -89,6 +89,26 @@ def run(ctx):
     ui = [i for i in c.impls_of(DE_BEH) if ty_adt(i["self_ty"]) == ufb][0]
     bp = ui["self_ty"]["args"][0]
     ms = c.methods_of_impl(ui)
+    # const parameters of the wrapper (knobs): its methods are read at the values the server deserializers instantiate them with
+    cparams = [a_["const"] for a_ in ui["self_ty"]["args"][1:] if "const" in a_]
+    if cparams:
+        insts = res.get("ufb_consts") or {}
+        vals = {}
+        same = True
+        for fmt_, cargs in insts.items():
+            for nm_, a_ in zip(cparams, cargs):
+                v_ = {"true": True, "false": False}.get(str(a_.get("const")), a_.get("const"))
+                if isinstance(v_, str) and v_.lstrip("-").isdigit():
+                    v_ = int(v_)
+                if nm_ in vals and vals[nm_] != v_:
+                    same = False
+                vals[nm_] = v_
+        if insts and same and all(isinstance(v_, (bool, int)) for v_ in vals.values()) and len(vals) == len(cparams):
+            from .. import inline as _inl5
+            ms = {m_: _inl5.specialise(c, b_, vals) for m_, b_ in ms.items()}
+            ctx.note(f"R5.1 / R5.2: {ufb.split('::')[-1]} has const parameters {cparams}; its methods are read at the server deserializers' instantiation {vals}")
+        else:
+            ctx.violation("R5.1", f"{ui['file']}:{ui['line']}", "ufb|const-params", f"{ufb} has const parameters {cparams} whose server-side values could not be determined ({insts}): strictness cannot be decided")
     beh_methods = set(c.trait_decls[DE_BEH]["methods"])
     # R5.1 every behaviour method is overridden and forwards to the same-named method of B
     for m in sorted(beh_methods):
@@ -308,3 +328,27 @@ def run(ctx):
                       instance=f"{fmt} client {tystr(x['self_ty'])}: deserialize_struct not overridden")
     # R5.5 every convenience entry point runs the value through the Conjure deserializer of its own flavour (shared with C01)
     ctx.include(c01, {"R1.6"}, "R5.5", "a server entry point that deserializes through anything but the strict Conjure server deserializer accepts unknown fields")
+
+
+_run_c05 = run
+
+
+def run(ctx):
+    _run_c05(ctx)
+    # R5.6 generated union deserializers read every payload from the map access in force (which carries the server's strictness):
+    # a payload buffered as `Any` and converted afterwards (`Any::deserialize_into`) is re-read by Any's own deserializer, which
+    # ignores unknown fields like a client
+    from .. import gentypes as _gt
+    ct = ctx.F.crate("conjure_test")
+    n = 0
+    for u in _gt.find_unions(ct, ctx.F):
+        if u.visit_map is None:
+            continue
+        n += 1
+        fam = [u.visit_map] + ct.closures_of(u.visit_map)
+        conv = [t for x in fam for _, t in x.calls() if t["call"]["name"] in ("deserialize_into", "deserialize") and "conjure_object::any" in t["call"]["def"] and t["call"]["name"] == "deserialize_into"]
+        who = f"{u.config}/{u.path.split('::')[-1]}"
+        ctx.check(not conv, "R5.6", u.visit_map.loc(conv[0]["ln"]) if conv else u.visit_map.loc(), f"{u.path}|visit_map|payload-read-in-place",
+                  f"{who}: a variant's payload is buffered as `Any` and converted with Any::deserialize_into: the conversion runs on Any's own (lenient) deserializer, so the server accepts unknown fields inside that payload",
+                  instance=f"{who}: payloads are read from the map access itself")
+    ctx.floor("R5.6", "generated union deserializers", n, 4)
